@@ -193,6 +193,16 @@ def _montecarlo_table(ck: Checker, prog: Program, f):
         if not good:
             okd = False
             why = f"row store {[(str(s_[1][1]), str(s_[0][2])) for s_ in stores]} with rng {'None' if is_none else 'given'}"
+        elif stores:
+            # the buffer the draws are stored into: one float row per generating location, whatever the type of the means
+            buf = stores[0][1][0]
+            bn = getattr(getattr(buf, "func", None), "__name__", "")
+            shape_ok = bn in ("empty", "zeros") and buf.args and isinstance(buf.args[0], sp.Tuple) and len(buf.args[0]) == 2 \
+                and buf.args[0][0] in (sp.Function("len")(GM), sp.Function("len")(GS)) and buf.args[0][1] == NR
+            dtype_ok = shape_ok and (len(buf.args) == 1 or (len(buf.args) == 2 and str(buf.args[1]) in ("float", "np.float64", "np.double", "'float64'", "'float'", "np.float_")))
+            if not dtype_ok:
+                okd = False
+                why = f"the draws are stored into {buf}: not a float array of shape (number of generating locations, n_realizations) - the draws would be converted to the buffer's type"
     if okd:
         ck.ok("C14.R3", q, "row r = rng.normal(mean_r, stddev_r, n_realizations)", detail="rng = default_rng() exactly when no generator is given")
     else:
